@@ -91,6 +91,19 @@ def build(tlv_len, with_amount):
     cfg = dict(htlcs=[spec], invoices=[inv], store_init='free_absent', allow_self=sym.var('allow_self', 'B'))
     return cfg, pc
 
+class LaterSelfHint:
+    """HTLC 1 carries an invoice with a disallowed self route hint: `fail` on its first poll, never held, never settled."""
+    def on_response(self, m, sc, k, resp):
+        if k != 1:
+            return
+        t = [t for t in m.st.sched.tasks if m.st.roots['task_of'].get(t.tid) == k][-1]
+        if not (isinstance(resp, Adt) and resp.variant == 'Fail') or t.polls != 1:
+            raise Violation('later-self-hint-accepted', {'htlc': 1, 'response': resp.variant if isinstance(resp, Adt) else repr(resp), 'polls': t.polls},
+                            'classify', 'self-hint-later-htlc')
+    def on_quiescent(self, m, sc):
+        if 1 in m.st.roots['delivered'] and not any(k == 1 for (_e, k) in m.st.roots['responses']):
+            raise Violation('later-self-hint-accepted', {'htlc': 1, 'response': 'held'}, 'classify', 'self-hint-later-htlc')
+
 def main(tier, seed, args):
     rep = Report(PID, tier, seed, 'model_checking')
     c = ctx('on')
@@ -115,6 +128,21 @@ def main(tier, seed, args):
                 break
         if rep.violations:
             break
+    if not rep.violations:
+        # the same rules hold for every HTLC, not only for the one that opens a payment: a later HTLC of the same hash
+        # whose (different, validly signed) invoice names the local node as last hop of a hint, with self hints
+        # disallowed, is failed at once -- whatever state the payment opened by the first HTLC is in
+        from ..scenario import HtlcSpec as _H
+        H = sym.var('H')
+        local = sym.var('local_node_id')
+        inv_a = InvoiceSpec(1, H, 1000000)
+        inv_b = InvoiceSpec(2, H, 1000000, hints=[[sym.var('hopb0'), local]])
+        h0 = _H(0, invoice=0, hash=H, amount=1006000, forward='amount', total=1006000, cltv_expiry=3000, cltv_rel=1500)
+        h1 = _H(1, invoice=1, hash=H, amount=1000, forward='amount', total=1006000, cltv_expiry=3001, cltv_rel=1500)
+        cfg = dict(htlcs=[h0, h1], invoices=[inv_a, inv_b], store_init='free_absent', allow_self=False, max_parts=1, pay_outcomes=('complete',),
+                   policy=(1000, 5000, 1008), cltv_delta=34, height=100, deliver_in_order=True)
+        scen_common.run_configs(rep, PID, c, [('self route hint on a later htlc of a payment in progress', cfg, [], [LaterSelfHint()], {})],
+                                300 if tier == 'quick' else 1800)
     miss = [x for x in ('trampoline', 'fail', 'continue') if x not in Classification.seen]
     if miss and not rep.violations:
         rep.inconclusive.append('vacuity guard: classification outcomes never reached: %s' % miss)
